@@ -2,6 +2,8 @@ mod alloc;
 mod case;
 mod p_c01;
 mod p_c02;
+mod p_c03;
+mod delivery;
 mod spec;
 mod resp;
 mod respgen;
@@ -68,6 +70,7 @@ fn main() {
             match prop {
                 "C01" => p_c01::generate(seed, tier, &mut sink),
                 "C02" => p_c02::generate(seed, tier, &mut sink),
+                "C03" => p_c03::generate(seed, tier, &mut sink),
                 _ => {
                     eprintln!("unknown property {}", prop);
                     std::process::exit(2);
